@@ -370,6 +370,9 @@ VARIANTS += [
  dict(name='iterator-over-subslice-skips-leaf', expect='flagged(aggregator/)', edits=_iter_loop(arg='certResults[1:]')),
  dict(name='iterator-slice-shrunk-in-body', expect='flagged(aggregator/)',
       edits=_iter_loop(extra=(V, _NONREV_WARN, '\t\tif certResult.Result == revocationresult.ResultUnknown {\n\t\t\tcertResults = certResults[:numOKResults]\n\t\t}\n' + _NONREV_WARN))),
+ dict(name='iterator-key-reassigned-in-body', expect='flagged(aggregator/)',
+      why='the key of a range-over-func loop is a copy (assigning it misattributes the subject but does not steer the loop); in the three-clause form it would steer the loop: such a loop is not rewritten, hence not recognised',
+      edits=[(V,) + _IMPORT, (V, _LOOP_HEAD, 'for i, certResult := range stdslices.Backward(certResults) {\n\t\tif certResult.Result == revocationresult.ResultRevoked {\n\t\t\ti = 0\n\t\t}\n\t\tcert := certChain[i]')]),
  dict(name='iterator-loop-chain-index-off', expect='flagged(aggregator/same-index)',
       edits=[(V,) + _IMPORT, (V, _LOOP_HEAD, 'for i, certResult := range stdslices.Backward(certResults) {\n\t\tcert := certChain[len(certChain)-1-i]')]),
 ]
